@@ -618,6 +618,10 @@ func (ci *crdIpam) ByKeyAndIPRanges(key string, ipranges [][]nets.IPRange) ([]*F
 				ipinfos = append(ipinfos, ci.toFloatingIPInfo(fip))
 			}
 		}
+		// callers take "the first" ip of a key that holds several, filter and bind must agree on which one that is
+		sort.Slice(ipinfos, func(i, j int) bool {
+			return nets.IPToInt(ipinfos[i].FloatingIP.IP) < nets.IPToInt(ipinfos[j].FloatingIP.IP)
+		})
 	}
 	return ipinfos, nil
 }
